@@ -25,7 +25,7 @@ for sid in ids:
         for pid in props:
             env = dict(os.environ, VERIF_REPO=mut, VERIF_EVIDENCE_DIR=os.path.join(mut, ".evidence"), VERIF_REPLAY_DIR="/tmp/verif_replays")
             t = time.time()
-            r = subprocess.run(["/verif/check", pid, "--tier", a.tier], env=env, capture_output=True, text=True)
+            r = subprocess.run([os.environ.get("VERIF_CHECK_CMD", "/verif/check"), pid, "--tier", a.tier], env=env, capture_output=True, text=True)
             v = [l for l in r.stdout.splitlines() if l.startswith("violation:")]
             if r.returncode == 1 and not any(l.startswith("VIOLATION property=") for l in r.stdout.splitlines()):
                 r.returncode = 2  # a crash of the check itself is a harness fault, never a detection
